@@ -151,6 +151,7 @@ func (e *Engine) LoadSpecs(extDir string) error {
 			}
 		}
 	}
+	e.expandSweeps()
 	// resolve ghost owner types to canonical type strings
 	for _, g := range e.db.Ghosts {
 		owner := g.Type
@@ -178,6 +179,9 @@ func (e *Engine) LoadSpecs(extDir string) error {
 	canon := func(m map[string]*Contract, isMethod bool) {
 		for k, ct := range m {
 			name := k
+			if j := strings.Index(name, "|"); j >= 0 {
+				name = name[j+1:]
+			}
 			meth := ""
 			if isMethod {
 				i := strings.LastIndex(name, ".")
@@ -342,16 +346,20 @@ func (c *Ctx) run() {
 	}
 	c.entrySnap = st.snap()
 	fr.entry = c.entrySnap
+	hasRequires := false
 	if ct != nil {
 		se := &SpecEnv{c: c, st: st, vars: fr.env, pkg: ct.Pkg, fr: fr}
 		for _, cl := range ct.Clauses {
 			if cl.Kind == "requires" {
 				st.assume(se.assumeF(cl.E))
+				hasRequires = true
 			}
 		}
 	}
-	// vacuity: the entry assumptions must be satisfiable
-	c.obls = append(c.obls, &Obligation{Func: c.fnKey(), Kind: "nonvacuous", Name: c.fnKey() + "#nonvacuous", Desc: "preconditions and type invariants are satisfiable", Goal: "false", Lines: st.lines.collect(), Expect: "sat"})
+	// vacuity: the entry assumptions must be satisfiable (nothing to check without preconditions)
+	if hasRequires {
+		c.obls = append(c.obls, &Obligation{Func: c.fnKey(), Kind: "nonvacuous", Name: c.fnKey() + "#nonvacuous", Desc: "preconditions and type invariants are satisfiable", Goal: "false", Lines: st.lines.collect(), Expect: "sat"})
+	}
 	names := resultNames(ct, fn.Signature)
 	fr.onReturn = func(st2 *State, results []T) {
 		c.returns++
@@ -640,4 +648,59 @@ func (c *Ctx) proveAtReturn(se *SpecEnv, e Expr) (g string, unresolved string) {
 		}
 	}()
 	return se.prove(e), ""
+}
+
+// expandSweeps turns the schematic "sweep ... assigns nothing: names" contracts into one contract
+// per matching function that has none, and tags matching explicit "assigns nothing" contracts.
+func (e *Engine) expandSweeps() {
+	for _, sw := range e.db.Sweeps {
+		var keys []string
+		for k := range e.funcs {
+			keys = append(keys, k)
+		}
+		sort.Strings(keys)
+		for _, k := range keys {
+			fn := e.funcs[k]
+			if funcPkgPath(fn) != sw.Pkg || fn.Synthetic != "" || fn.Parent() != nil || len(fn.Blocks) == 0 {
+				continue
+			}
+			rel := relFuncName(fn)
+			match := sw.Names["*"]
+			if fn.Signature.Recv() != nil {
+				t := fn.Signature.Recv().Type()
+				if pt, ok := t.(*types.Pointer); ok {
+					t = pt.Elem()
+				}
+				if nt, ok := t.(*types.Named); ok && sw.Names[nt.Obj().Name()] {
+					match = true
+				}
+			} else if sw.Names["func "+rel] {
+				match = true
+			}
+			if !match {
+				continue
+			}
+			key := sw.Pkg + "::" + rel
+			if ct, ok := e.db.Contracts[key]; ok {
+				for _, cl := range ct.Clauses {
+					if cl.Kind == "assigns" && len(cl.Locs) == 0 && (normSpace(cl.Text) == "nothing" || normSpace(cl.Text) == "") {
+						cl.Tags = append(cl.Tags, sw.Tags...)
+					}
+				}
+				continue
+			}
+			ct := &Contract{Pkg: sw.Pkg, Kind: "func", Name: rel, Flags: map[string]bool{"synthetic": true}, FlagArgs: map[string]string{}, File: sw.File, Line: sw.Line}
+			if fn.Signature.Recv() != nil && len(fn.Params) > 0 && fn.Params[0].Name() != "" && fn.Params[0].Name() != "_" {
+				if _, isPtr := fn.Signature.Recv().Type().(*types.Pointer); isPtr {
+					// type invariant of a method value: the receiver of a pointer method is not nil
+					txt := fn.Params[0].Name() + " != nil"
+					if ex, err := ParseSpecExpr(txt); err == nil {
+						ct.Clauses = append(ct.Clauses, &Clause{Kind: "requires", Text: txt, E: ex, File: sw.File, Line: sw.Line, Site: -1})
+					}
+				}
+			}
+			ct.Clauses = append(ct.Clauses, &Clause{Kind: "assigns", Text: "nothing", Tags: sw.Tags, File: sw.File, Line: sw.Line, Site: -1})
+			e.db.Contracts[key] = ct
+		}
+	}
 }
